@@ -251,4 +251,24 @@ static void body()
     vrt::alloc::check_pairing("fmtparse");
 }
 
+#ifdef VRT_FUZZ
+// libFuzzer front end (thorough tier of C10): byte 0 selects the argument list, byte 1 seeds
+// the argument values, the rest is the format string (NUL bytes become '0': the terminator
+// must stay the only NUL).  Same monitors as the generated cases (format_case).
+static void vrt_fuzz_one(const uint8_t *d, size_t n)
+{
+    if (n < 2) return;
+    const int nshapes = NSHAPES + NEXTRA;
+    int shape = d[0] % nshapes;
+    if (shape >= NSHAPES) shape = EXTRA_BASE + (shape - NSHAPES);
+    Rng r(0x5eed0000u + d[1]);
+    Values v;
+    random_values(r, v);
+    S fmt(reinterpret_cast<const char *>(d + 2), n - 2);
+    for (auto &c : fmt) if (c == '\0') c = '0';
+    format_case(fmt, shape, v);
+    vrt::count("fuzz.inputs");
+}
+#endif
+
 VRT_MAIN(body)
